@@ -525,6 +525,27 @@ def r7_scratch(ctx, f, rep):
                                   'constant kind passed to %s is not Feed' % b.nname, site=ce['span'],
                                   construct='drain-kind-caller', facts={'kinds': sorted(kinds)})
     rep.floor('C07-R7', n, 4, 'send_message calls inside choice_buf draining loops')
+    # every fill of choice_buf starts from an empty buffer: the previous choice_buf operation on the path is clear()
+    CB = ('ref', q.self_field('choice_buf'), True)
+    nf = 0
+    for b in f.bodies:
+        if not b.nname.startswith('Foca::'):
+            continue
+        if not any('choose_' in t['res'] for _, t in f.calls(b)):
+            continue
+        for p in ctx.paths(f, b, 'none'):
+            last = None
+            for e in p.events:
+                if e['kind'] != 'call' or CB not in e['args']:
+                    continue
+                nm = e['res']
+                if nm in ('member::Members::choose_active_members', 'member::Members::choose_down_members'):
+                    nf += 1
+                    rep.check(last == 'alloc::vec::Vec::clear', 'C07-R7', b.nname, 'choice_buf is cleared immediately before it '
+                              'is filled (a previous user may have left elements behind)', site=e['span'],
+                              construct='fill-after-clear', facts={'previous_operation': last})
+                last = nm
+    rep.floor('C07-R7', nf, 5, 'choice_buf fills')
 
 
 def check(ctx):
